@@ -4,7 +4,7 @@ from .. import fmm, fmmmode, fx, rules
 from . import c11
 
 LEVEL = "other"
-TECHNIQUE = "symbolic extraction of the FMM near-field kernels (vs dense kernels and their gradients), non-commutative term normalisation of the scalar, hypersingular, Maxwell and potential FMM evaluators, index-bound and row-convention analysis of the coefficient-to-point maps, finite-domain abstract execution of the evaluator selectors"
+TECHNIQUE = "symbolic extraction of the FMM near-field kernels (vs dense kernels and their gradients), non-commutative term normalisation of the scalar, hypersingular, Maxwell and potential FMM evaluators, index-bound and row-convention analysis of the coefficient-to-point maps, finite-domain abstract execution of the evaluator selectors; finite domain of operator identifiers / modes / representations for the FMM mode, kernel and correction dispatch; CSR counter dataflow rule"
 LEVEL_TEXT = (
     "No FMM library exists in this sandbox; only source can be examined.  Decided: the three near-field kernels are "
     "the dense single-layer kernel and its gradient in the target point with coincident pairs zeroed; the scalar and "
